@@ -32,7 +32,7 @@ func init() {
 		Level:        "exploration",
 		Race:         true,
 		FreshProcess: true,
-		Rule: "built with -race; every case runs in a fresh process (new map hash seeds). Inputs: synthetic modules with 20-200 entries in every translator index (types, comdats, globals, attribute groups, named and numbered metadata), the atom catalogue, llvm-stress programs and rejected inputs (undefined / duplicate names). Per (input, process): R sequential parses, each entry point (ParseFile, Parse through 1-byte and PRNG-chunk readers, through readers that deliver their last bytes together with io.EOF, ParseBytes, ParseString), parses after unrelated parse/print activity, and G goroutines parsing different inputs at once must all give the same accept/reject outcome, the same String() and the same structural digest; the digest is also compared across processes; exported singletons (types.*, constant.True/False/None, metadata.Null) are snapshotted before and after; any race report is a violation. The Visit hooks record the key order of each translator map loop. " +
+		Rule: "built with -race; every case runs in a fresh process (new map hash seeds). Inputs: synthetic modules with 20-200 entries in every translator index (types, comdats, globals, attribute groups, named and numbered metadata), the atom catalogue, llvm-stress programs and rejected inputs (undefined / duplicate names). Per (input, process): R sequential parses, each entry point (ParseFile, Parse through 1-byte and PRNG-chunk readers, through readers that deliver their last bytes together with io.EOF, ParseBytes, ParseString), parses after unrelated parse/print activity, and G goroutines parsing different inputs at once must all give the same accept/reject outcome, the same String() and the same structural digest; the digest is also compared across processes; exported singletons (types.*, constant.True/False/None, metadata.Null) are snapshotted before and after; any race report is a violation. The Visit hooks record the key order of each translator map loop. Every accepted input is also printed three times (same text each time, and a module that is structurally what a parse printed once is), and two parses of it are compared as object graphs: apart from types and the exported constants they share no instruction, constant, metadata node, big number or slice storage. " +
 			"non-trivial = an (input, process) pair whose map loops were observed in at least two different orders within the process (order diversity witnessed), or a rejected input; distinct by (input, process)",
 		Gen:           genC12,
 		Post:          postC12,
@@ -364,6 +364,30 @@ func c12Case(r *fw.Rec, proc int, s corpus.Source, companions []corpus.Source) {
 				return
 			}
 		}
+		// two parses of the same text are two object graphs: apart from types
+		// (shared by design) and the exported constants, no instruction, constant,
+		// metadata node, big number or slice storage belongs to both (whatever one
+		// module does to its own objects must not reach a module parsed earlier or later)
+		var shared []string
+		if p, _, _ := fw.Guard(func() {
+			ma, ea := asm.ParseString(s.ID, text)
+			mb, eb := asm.ParseString(s.ID, text)
+			if ea != nil || eb != nil || ma == nil || mb == nil {
+				return
+			}
+			skip := c12Singletons()
+			oa, ob := graph.HeapObjects(ma, skip), graph.HeapObjects(mb, skip)
+			for ptr, typ := range oa {
+				if tb, ok := ob[ptr]; ok && tb == typ {
+					shared = append(shared, typ)
+				}
+			}
+			r.TallyN("isolation", "objects-compared", len(oa))
+		}); !p && len(shared) > 0 {
+			sort.Strings(shared)
+			r.Violate(fw.Violation{Key: "objects-shared-between-parses/" + s.ID, Input: text, What: fmt.Sprintf("two parses of the same text share %d objects that are neither types nor exported constants (e.g. %s): an edit of one module reaches the other", len(shared), shared[0])})
+			return
+		}
 	}
 	diverse := 0
 	for site, set := range orders {
@@ -515,4 +539,21 @@ func c12Report(r *fw.Rec, id, text, how string, ref, o c12Outcome) {
 // number of processes that observed each input is tallied.
 func postC12(ctx *fw.Ctx, merged *fw.Rec) {
 	merged.TallyLocked("cross_process", fmt.Sprintf("inputs_compared_across_processes=%d", len(merged.Facts)))
+}
+
+// c12Singletons returns the addresses of the exported package-level values of
+// package constant and metadata that modules share by design.
+func c12Singletons() map[uintptr]bool {
+	out := map[uintptr]bool{}
+	for _, v := range []interface{}{constant.True, constant.False, constant.None, metadata.Null} {
+		rv := reflect.ValueOf(v)
+		if rv.Kind() == reflect.Ptr && !rv.IsNil() {
+			out[rv.Pointer()] = true
+			// and what they hold
+			if ci, ok := v.(*constant.Int); ok && ci.X != nil {
+				out[reflect.ValueOf(ci.X).Pointer()] = true
+			}
+		}
+	}
+	return out
 }
